@@ -308,6 +308,179 @@ pub open spec fn events_for(role: ChanId, f: spec_fn(int) -> int, outs: Seq<int>
 //@rule X6.world * s/\.send_event\(/.send_event(Tracked(w), /
 //@end
 
+// ------------------------------------------------------------------ builder chains: then_request / then_stream / map
+// The chains are `futures` adapters. Each adapter is an ASSUMED call that names, by an uninterpreted
+// constructor, the documented semantics of that adapter (and of its parameters); the contract of each
+// builder names the semantics the PROPERTY asks for. A chain built from other adapters, or from the same
+// adapter with another parameter, denotes another stream and fails the obligation.
+/// a stream of T / a future of T, by identity
+#[verifier::external_body]
+#[verifier::accept_recursive_types(T)]
+pub struct Strm<T> { _p: core::marker::PhantomData<T> }
+#[verifier::external_body]
+#[verifier::accept_recursive_types(T)]
+pub struct Fut<T> { _p: core::marker::PhantomData<T> }
+impl<T> Strm<T> { pub uninterp spec fn id(&self) -> StreamId; }
+impl<T> Fut<T> { pub uninterp spec fn id(&self) -> StreamId; }
+/// futures' documented semantics, named
+/// StreamExt::then: every item, once, in order; the next item is not taken before the stage's future has finished
+pub uninterp spec fn each_item_once_in_order_one_at_a_time(src: StreamId) -> StreamId;
+/// StreamExt::map: every item passed through the function once, in order
+pub uninterp spec fn each_item_mapped_once_in_order(src: StreamId) -> StreamId;
+/// StreamExt::buffer_unordered(n): up to n stage futures in flight, outputs in completion order
+pub uninterp spec fn stages_in_flight_together_outputs_in_completion_order(src: StreamId, n: int) -> StreamId;
+/// StreamExt::flatten_unordered(limit): the inner streams polled concurrently; with a limit, further
+/// inner streams are not started while `limit` are open
+pub uninterp spec fn inner_streams_merged(src: StreamId, limit: Option<int>) -> StreamId;
+/// StreamExt::flat_map / flatten: the inner streams one after another
+pub uninterp spec fn inner_streams_one_after_another(src: StreamId) -> StreamId;
+/// FutureExt::map / then / into_stream
+pub uninterp spec fn output_mapped_once(src: StreamId) -> StreamId;
+pub uninterp spec fn then_the_next_future_on_its_output(src: StreamId) -> StreamId;
+pub uninterp spec fn the_one_output_as_a_stream(src: StreamId) -> StreamId;
+/// the stream / future a builder makes in a context
+pub uninterp spec fn task_in(builder: StreamId, effects: ChanId, events: ChanId) -> StreamId;
+
+impl<T> Strm<T> {
+    // ASSUMED (futures StreamExt, documented semantics as named above)
+    #[verifier::external_body]
+    pub fn then<U, X, F: FnMut(T) -> X>(self, f: F) -> (r: Strm<U>)
+        requires forall|t: T| call_requires(f, (t,)),
+        ensures r.id() == each_item_once_in_order_one_at_a_time(self.id()),
+    { unimplemented!() }
+    #[verifier::external_body]
+    pub fn map<U, F: FnMut(T) -> U>(self, f: F) -> (r: Strm<U>)
+        requires forall|t: T| call_requires(f, (t,)),
+        ensures r.id() == each_item_mapped_once_in_order(self.id()),
+    { unimplemented!() }
+    #[verifier::external_body]
+    pub fn buffer_unordered<U>(self, n: usize) -> (r: Strm<U>)
+        ensures r.id() == stages_in_flight_together_outputs_in_completion_order(self.id(), n as int),
+    { unimplemented!() }
+    #[verifier::external_body]
+    pub fn buffered<U>(self, n: usize) -> (r: Strm<U>)
+        ensures r.id() == stages_in_flight_together_outputs_in_completion_order(self.id(), n as int),
+    { unimplemented!() }
+    #[verifier::external_body]
+    pub fn flatten_unordered<U>(self, limit: Limit) -> (r: Strm<U>)
+        ensures r.id() == inner_streams_merged(self.id(), limit.0@),
+    { unimplemented!() }
+    #[verifier::external_body]
+    pub fn flat_map<U, S, F: FnMut(T) -> S>(self, f: F) -> (r: Strm<U>)
+        requires forall|t: T| call_requires(f, (t,)),
+        ensures r.id() == inner_streams_one_after_another(each_item_mapped_once_in_order(self.id())),
+    { unimplemented!() }
+    #[verifier::external_body]
+    pub fn flatten<U>(self) -> (r: Strm<U>)
+        ensures r.id() == inner_streams_one_after_another(self.id()),
+    { unimplemented!() }
+}
+/// `impl Into<Option<usize>>` as written at the call site (`None` / a number)
+pub struct Limit(pub Ghost<Option<int>>);
+pub fn no_limit() -> (r: Limit)
+    ensures r.0@ is None,
+{ Limit(Ghost(None)) }
+pub fn limit_of(n: usize) -> (r: Limit)
+    ensures r.0@ == Some(n as int),
+{ Limit(Ghost(Some(n as int))) }
+impl<T> Fut<T> {
+    // ASSUMED (futures FutureExt)
+    #[verifier::external_body]
+    pub fn map<U, F: FnOnce(T) -> U>(self, f: F) -> (r: Fut<U>)
+        requires forall|t: T| call_requires(f, (t,)),
+        ensures r.id() == output_mapped_once(self.id()),
+    { unimplemented!() }
+    #[verifier::external_body]
+    pub fn then<U, X, F: FnOnce(T) -> X>(self, f: F) -> (r: Fut<U>)
+        requires forall|t: T| call_requires(f, (t,)),
+        ensures r.id() == then_the_next_future_on_its_output(self.id()),
+    { unimplemented!() }
+    #[verifier::external_body]
+    pub fn into_stream(self) -> (r: Strm<T>)
+        ensures r.id() == the_one_output_as_a_stream(self.id()),
+    { unimplemented!() }
+}
+/// the builders, as values with an identity; `into_future` / `into_stream` make their task in a context
+#[verifier::external_body]
+#[verifier::accept_recursive_types(T)]
+pub struct ReqB<T> { _p: core::marker::PhantomData<T> }
+#[verifier::external_body]
+#[verifier::accept_recursive_types(T)]
+pub struct StrB<T> { _p: core::marker::PhantomData<T> }
+impl<T> ReqB<T> {
+    pub uninterp spec fn id(&self) -> StreamId;
+    // ASSUMED (RequestBuilder::into_future: `make_task(ctx)`)
+    #[verifier::external_body]
+    pub fn into_future<Effect, Event>(self, ctx: CommandContext<Effect, Event>) -> (r: Fut<T>)
+        ensures r.id() == task_in(self.id(), ctx.effects.role(), ctx.events.role()),
+    { unimplemented!() }
+}
+impl<T> StrB<T> {
+    pub uninterp spec fn id(&self) -> StreamId;
+    // ASSUMED (StreamBuilder::into_stream: `make_stream(ctx)`)
+    #[verifier::external_body]
+    pub fn into_stream<Effect, Event>(self, ctx: CommandContext<Effect, Event>) -> (r: Strm<T>)
+        ensures r.id() == task_in(self.id(), ctx.effects.role(), ctx.events.role()),
+    { unimplemented!() }
+}
+
+//@extract id=StreamBuilder::then_request::task file=crux_core/src/command/builder.rs within="impl<Effect, Event, Task, T> StreamBuilder<Effect, Event, Task>" item="fn then_request" closure="StreamBuilder::new\(" props=C04
+//@expect |$x|
+//@sig fn stream_then_request_task<Effect, Event, T, U, F: Fn(T) -> ReqB<U>>(this: StrB<T>, make_next_builder: F, $x: CommandContext<Effect, Event>) -> (r: Strm<U>)
+//@contract
+    requires forall|t: T| call_requires(make_next_builder, (t,)),
+    ensures r.id() == each_item_once_in_order_one_at_a_time(task_in(this.id(), $x.effects.role(), $x.events.role())), // [C04/stream-then_request/each-output-is-fed-to-the-next-stage-exactly-once-in-order-one-at-a-time]
+//@rule X19.captured-self * s/\bself\b/this/
+//@rule X1.closure-contract * closure#\.then\(#|$x: T| -> (fut: Fut<U>) ensures exists|b: ReqB<U>| call_ensures(make_next_builder, ($x,), b) && fut.id() == task_in(b.id(), ctx_roles.0, ctx_roles.1) // [C04/stream-then_request/the-next-stage-is-the-builder-made-from-that-output-run-in-the-same-context]\n#
+//@entry
+    let ghost ctx_roles = ($x.effects.role(), $x.events.role());
+//@end
+
+//@extract id=StreamBuilder::then_stream::task file=crux_core/src/command/builder.rs within="impl<Effect, Event, Task, T> StreamBuilder<Effect, Event, Task>" item="fn then_stream" closure="StreamBuilder::new\(" props=C04
+//@expect move |$x|
+//@sig fn stream_then_stream_task<Effect, Event, T, U, F: Fn(T) -> StrB<U>>(this: StrB<T>, make_next_builder: F, $x: CommandContext<Effect, Event>) -> (r: Strm<U>)
+//@contract
+    requires forall|t: T| call_requires(make_next_builder, (t,)),
+    ensures r.id() == inner_streams_merged(each_item_mapped_once_in_order(task_in(this.id(), $x.effects.role(), $x.events.role())), None), // [C04/stream-then_stream/every-output-starts-its-next-stream-and-all-of-them-are-merged-without-a-limit]
+//@rule X19.captured-self * s/\bself\b/this/
+//@rule X12.pin * s/Box::pin\(/pinned(/
+//@rule X7.limit * s/\.flatten_unordered\(None\)/.flatten_unordered(no_limit())/
+//@rule X7.limit * s/\.flatten_unordered\((?:Some\()?(\d+)\)?\)/.flatten_unordered(limit_of(\1))/
+//@rule X1.closure-contract * closure#\.map\(#|$x: T| -> (s: Strm<U>) ensures exists|b: StrB<U>| call_ensures(make_next_builder, ($x,), b) && s.id() == task_in(b.id(), ctx_roles.0, ctx_roles.1) // [C04/stream-then_stream/the-next-stream-is-the-builder-made-from-that-output-run-in-the-same-context]\n#
+//@entry
+    let ghost ctx_roles = ($x.effects.role(), $x.events.role());
+//@end
+
+//@extract id=StreamBuilder::map::task file=crux_core/src/command/builder.rs within="impl<Effect, Event, Task, T> StreamBuilder<Effect, Event, Task>" item="fn map" closure="StreamBuilder::new\(" props=C04
+//@expect |$x|
+//@sig fn stream_map_task<Effect, Event, T, U, F: FnMut(T) -> U>(this: StrB<T>, map: F, $x: CommandContext<Effect, Event>) -> (r: Strm<U>)
+//@contract
+    requires forall|t: T| call_requires(map, (t,)),
+    ensures r.id() == each_item_mapped_once_in_order(task_in(this.id(), $x.effects.role(), $x.events.role())), // [C04/stream-map/every-output-is-transformed-exactly-once-in-order]
+//@rule X19.captured-self * s/\bself\b/this/
+//@end
+
+//@extract id=RequestBuilder::then_request::task file=crux_core/src/command/builder.rs within="impl<Effect, Event, Task, T> RequestBuilder<Effect, Event, Task>" item="fn then_request" closure="RequestBuilder::new\(" props=C04
+//@expect |$x|
+//@sig fn request_then_request_task<Effect, Event, T, U, F: FnOnce(T) -> ReqB<U>>(this: ReqB<T>, make_next_builder: F, $x: CommandContext<Effect, Event>) -> (r: Fut<U>)
+//@contract
+    requires forall|t: T| call_requires(make_next_builder, (t,)),
+    ensures r.id() == then_the_next_future_on_its_output(task_in(this.id(), $x.effects.role(), $x.events.role())), // [C04/request-then_request/the-output-is-fed-to-the-next-stage-exactly-once-after-the-first-has-finished]
+//@rule X19.captured-self * s/\bself\b/this/
+//@rule X1.closure-contract * closure#\.then\(#|$x: T| -> (fut: Fut<U>) ensures exists|b: ReqB<U>| call_ensures(make_next_builder, ($x,), b) && fut.id() == task_in(b.id(), ctx_roles.0, ctx_roles.1) // [C04/request-then_request/the-next-stage-is-the-builder-made-from-that-output-run-in-the-same-context]\n#
+//@entry
+    let ghost ctx_roles = ($x.effects.role(), $x.events.role());
+//@end
+
+//@extract id=RequestBuilder::map::task file=crux_core/src/command/builder.rs within="impl<Effect, Event, Task, T> RequestBuilder<Effect, Event, Task>" item="fn map" closure="RequestBuilder::new\(" props=C04
+//@expect |$x|
+//@sig fn request_map_task<Effect, Event, T, U, F: FnOnce(T) -> U>(this: ReqB<T>, map: F, $x: CommandContext<Effect, Event>) -> (r: Fut<U>)
+//@contract
+    requires forall|t: T| call_requires(map, (t,)),
+    ensures r.id() == output_mapped_once(task_in(this.id(), $x.effects.role(), $x.events.role())), // [C04/request-map/the-output-is-transformed-exactly-once]
+//@rule X19.captured-self * s/\bself\b/this/
+//@end
+
 // ------------------------------------------------------------------ the combinators themselves: one new command, one task
 /// what the main task of a command built by a combinator does (its body is proved above)
 pub enum TaskBody { Then(StreamId, StreamId), MapEffect(StreamId), MapEvent(StreamId), Event(int), Other }
